@@ -434,6 +434,21 @@ def det_programs():
         "argmax_cast_last": (lambda x: jnp.argmax(x * x).astype(jnp.float32), "v"),
         "cond_floor_branch": (lambda x: jax.lax.cond(x > 0.5, lambda v: jnp.floor(v * 3.0), lambda v: v * v, x), "s"),
         "cond_sign_branch_then_use": (lambda x: jax.lax.cond(x > 0.5, lambda v: jnp.sign(v), lambda v: jnp.ceil(v), x) * x, "s"),
+        # a cond / switch branch (or the whole program) that returns a nonzero constant: its tangent is zero
+        "cond_const_branch_taken": (lambda x: jax.lax.cond(x > 100.0, lambda v: v * v, lambda v: 1.5, x) * jnp.sin(x), "s"),
+        "cond_const_branch_tail": (lambda x: jax.lax.cond(x > 100.0, lambda v: v * 3.0, lambda v: -7.0, x), "s"),
+        "cond_const_branch_not_taken": (lambda x: jax.lax.cond(x > -100.0, lambda v: v * v, lambda v: 1.5, x) * jnp.sin(x), "s"),
+        "switch_const_branch": (lambda x: jax.lax.switch(jnp.int32(1), [lambda v: v * v, lambda v: 2.5, lambda v: v], x) + x, "s"),
+        "const_function": (lambda x: jnp.asarray(3.0), "s"),
+        # primitives with several results (their JVP rules return tuples / lists)
+        "sort_key_val": (lambda x: jnp.sum(jax.lax.sort_key_val(jnp.stack([x, x * x, -x]), jnp.stack([x, 2.0 * x, 3.0 * x]))[1] * jnp.arange(3.0)), "s"),
+        "top_k": (lambda x: jnp.sum(jax.lax.top_k(jnp.stack([x, x * x, -x]), 2)[0] * jnp.asarray([1.0, 3.0])), "s"),
+        "qr": (lambda x: jnp.sum(jnp.linalg.qr(jnp.asarray([[1.0, 2.0], [3.0, 4.0]]) * (2.0 + x * x))[1]), "s"),
+        # cond / switch / scan returning several values
+        "cond_two_outputs": (lambda x: (lambda ab: ab[0] * ab[1])(jax.lax.cond(x > 0.5, lambda v: (v * 2.0, v + 1.0), lambda v: (v, v * v), x)), "s"),
+        "switch_two_outputs": (lambda x: (lambda ab: ab[0] - 2.0 * ab[1])(jax.lax.switch(jnp.int32(1), [lambda v: (v, v), lambda v: (v * v, 3.0 * v)], x)), "s"),
+        "cond_pytree_output": (lambda x: (lambda d: d["a"] * jnp.sum(d["b"]))(jax.lax.cond(x > 0.5, lambda v: {"a": v, "b": jnp.stack([v, v * v])}, lambda v: {"a": v * 3.0, "b": jnp.stack([v, -v])}, x)), "s"),
+        "scan_two_carries": (lambda x: (lambda c: c[0] + c[1])(jax.lax.scan(lambda c, a: ((c[0] * x + a, c[1] + x), c[0]), (x, x), jnp.arange(3.0))[0]), "s"),
         "while_loop": (lambda x: jax.lax.while_loop(lambda c: c[0] < 3, lambda c: (c[0] + 1, c[1] * 1.5), (0, x))[1], "s"),
     }
 
